@@ -93,6 +93,8 @@ fn draw_ops(rng: &mut Rng, same_cfg: &CfgBits, max_len: u64) -> Vec<Op> {
             10 => Op::BurnArenas { n: *rng.pick(&[1u32, 7, 300, 66000]) },
             11 => Op::Unrelated { which: rng.u32() },
             12..=13 => Op::Reparse { cfg: same_cfg.clone() },
+            // (gc changes the logical module: from there on only repeatability and the fixpoint are comparable)
+            14 => Op::Gc,
             _ => Op::Emit,
         });
     }
@@ -251,7 +253,15 @@ impl Prop for C08 {
             return out;
         };
         out.digest = prng::mix64(t.digest(), prng::fnv(&reference));
-        let first_mutation = case.ops.iter().position(|o| matches!(o, Op::Edit(_) | Op::Gc | Op::CustomAddRaw { .. } | Op::CustomAddTyped { .. } | Op::CustomDelete { .. } | Op::CustomRemoveRaw { .. }));
+        let is_mutation = |o: &Op| matches!(o, Op::Edit(_) | Op::Gc | Op::CustomAddRaw { .. } | Op::CustomAddTyped { .. } | Op::CustomDelete { .. } | Op::CustomRemoveRaw { .. });
+        let first_mutation = case.ops.iter().position(is_mutation);
+        let has_reparse = case.ops.iter().any(|o| matches!(o, Op::Reparse { .. }));
+        // What the next emit of the current value must equal, and why:
+        //   the pristine reference (nothing but parse happened)            -> emit_eq_reference
+        //   the previous emit of the same, unmutated value                 -> emit_repeatable
+        //   the bytes this value was re-parsed from (walrus's own output)  -> reparse_fixpoint
+        // A mutation (edit / gc / custom-section operation) makes it unknown until the next emit defines it.
+        let mut expect: Option<(Vec<u8>, &'static str)> = Some((reference.clone(), "emit_eq_reference"));
         let mut emits_on_value = 0u32;
         let mut values = 0u32;
         let mut comparisons = 0u64;
@@ -260,25 +270,10 @@ impl Prop for C08 {
             let op = if i == 0 { None } else { Some(&case.ops[i - 1]) };
             if let Some(o) = op {
                 kinds.push(o.kind());
-            }
-            if matches!(first_mutation, Some(fm) if i > fm) {
-                // the module is no longer the parsed one: the parse-time reference does not apply from here on
-                // (the last emit is compared with the emit-free history below)
-                if matches!(step, StepOut::Panic { .. } | StepOut::Skipped) {
-                    out.hit("history_ended_by_panic");
-                    break 'steps;
+                if is_mutation(o) {
+                    expect = None;
                 }
-                continue;
             }
-            let which = |emits_on_value: u32, values: u32| {
-                if values > 0 && emits_on_value == 0 {
-                    "reparse_fixpoint"
-                } else if emits_on_value == 0 {
-                    "emit_eq_reference"
-                } else {
-                    "emit_repeatable"
-                }
-            };
             match step {
                 StepOut::Parsed { ok: true, .. } => {}
                 StepOut::Parsed { ok: false, .. } => {
@@ -291,16 +286,18 @@ impl Prop for C08 {
                     break 'steps;
                 }
                 StepOut::Emit { bytes } => {
-                    comparisons += 1;
-                    let o = which(emits_on_value, values);
-                    out.hit(&format!("checked_{}", o));
-                    if emits_on_value >= 2 {
-                        out.hit("emit_3rd_or_later_on_same_value");
+                    if let Some((want, o)) = &expect {
+                        comparisons += 1;
+                        out.hit(&format!("checked_{}", o));
+                        if emits_on_value >= 2 {
+                            out.hit("emit_3rd_or_later_on_same_value");
+                        }
+                        if bytes != want {
+                            out.failure = fail(o, format!("step {} ({}; emit #{} on value #{}): {}", i, o, emits_on_value + 1, values, life::bytes_diff(want, bytes)));
+                            break 'steps;
+                        }
                     }
-                    if bytes != &reference {
-                        out.failure = fail(o, format!("step {} ({}; emit #{} on value #{}): {}", i, o, emits_on_value + 1, values, life::bytes_diff(&reference, bytes)));
-                        break 'steps;
-                    }
+                    expect = Some((bytes.clone(), "emit_repeatable"));
                     emits_on_value += 1;
                 }
                 StepOut::EmitFile { ok, file, .. } => {
@@ -309,25 +306,35 @@ impl Prop for C08 {
                     }
                     if *ok {
                         if let Some(f) = file {
-                            comparisons += 1;
-                            if f != &reference {
-                                out.failure = fail("file_eq_memory", format!("step {}: the file written by emit_wasm_file differs from the in-memory bytes: {}", i, life::bytes_diff(&reference, f)));
-                                break 'steps;
+                            if let Some((want, o)) = &expect {
+                                comparisons += 1;
+                                if f != want {
+                                    let o = if *o == "emit_repeatable" { "file_eq_memory" } else { o };
+                                    out.failure = fail(o, format!("step {} ({}): the file written by emit_wasm_file differs from what this value must emit: {}", i, o, life::bytes_diff(want, f)));
+                                    break 'steps;
+                                }
                             }
+                            expect = Some((f.clone(), "emit_repeatable"));
                         }
                     }
                     emits_on_value += 1;
                 }
                 StepOut::Reparsed { emitted, ok, .. } => {
-                    comparisons += 1;
-                    let o = which(emits_on_value, values);
-                    if emitted != &reference {
-                        out.failure = fail(o, format!("step {} (emit for re-parse; {}): {}", i, o, life::bytes_diff(&reference, emitted)));
-                        break 'steps;
+                    if let Some((want, o)) = &expect {
+                        comparisons += 1;
+                        if emitted != want {
+                            out.failure = fail(o, format!("step {} (emit for re-parse; {}): {}", i, o, life::bytes_diff(want, emitted)));
+                            break 'steps;
+                        }
                     }
                     if !*ok {
                         out.failure = fail("reparse_fixpoint", format!("step {}: walrus rejected its own output", i));
                         break 'steps;
+                    }
+                    // the new value was parsed from walrus's own output: it must emit exactly those bytes
+                    expect = Some((emitted.clone(), "reparse_fixpoint"));
+                    if first_mutation.map(|fm| i > fm).unwrap_or(false) {
+                        out.hit("reparse_fixpoint_after_gc_or_edit");
                     }
                     values += 1;
                     emits_on_value = 0;
@@ -335,7 +342,7 @@ impl Prop for C08 {
                 StepOut::Query { .. } | StepOut::Ambient | StepOut::Gc | StepOut::Custom { .. } | StepOut::Edit { .. } => {}
             }
         }
-        if let (Some(_), None) = (first_mutation, &out.failure) {
+        if let (Some(_), None, false) = (first_mutation, &out.failure, has_reparse) {
             // "emitting (and querying) alters nothing": the same mutations without any emit / query in between
             let last_emit = t.steps.iter().rev().find_map(|s| if let StepOut::Emit { bytes } = s { Some(bytes) } else { None });
             let completed = t.steps.len() == case.ops.len() + 1 && !t.steps.iter().any(|s| matches!(s, StepOut::Panic { .. } | StepOut::Skipped));
